@@ -109,7 +109,7 @@ GROUPS = [
   "instances": [{"name": "any_byte"}]},
 ]
 META = {
- "not_covered": ["number and float text (libc snprintf/strtod decide it)", "datum labels, lists, vectors, bytevectors (sexp_write_one / sexp_read_raw are 400-line port-driven functions outside the verifier's reach)",
+ "not_covered": ["number and float text (libc snprintf/strtod decide it)", "datum labels, lists, vectors, bytevectors, symbols (sexp_write_one / sexp_read_raw are 400-line port-driven functions: only the character and string branches of the writer are reached, as extracted fragments); the reader's string-escape parser sexp_read_string",
                  "symbol |quoting| predicate (inlined in sexp_write_one)", "(srfi 38) / (scheme read)/(scheme write): Scheme code"],
  "trusted_base": ["CBMC 6.11.0 front end and SAT back end", "harness/prelude.h accessor substitution (same address, exact field type)", "CBMC's strlen model"],
  "assumptions": ["exception constructors replaced by the contract 'returns a valid exception object'",
